@@ -16,3 +16,8 @@ open Pcore.Ser
 #print axioms C10_impl_roundtrip
 #print axioms C10_span_codec
 #print axioms C10_span_canonical
+#print axioms mkCfg_keys
+#print axioms Inv.init
+#print axioms Rel.init
+#print axioms CInv.init
+#print axioms MInv.init
